@@ -32,47 +32,135 @@ def category(v: int) -> int:
 CAT_NAMES = ["easy(<=15)", "verbose(16..30)", "hard-to-maintain(31..60)", "unmaintainable(>60)"]
 
 
+def _names_assigned(stmts) -> set[str]:
+    out = set()
+    for st in stmts:
+        for n in ast.walk(st):
+            if isinstance(n, ast.Name) and isinstance(n.ctx, ast.Store):
+                out.add(n.id)
+    return out
+
+
 class Specializer(ast.NodeTransformer):
+    """Conditional constant propagation for one valuation of the subject(s).
+
+    Folds: tests on the subject(s) and integer literals; local names that hold a
+    constant on every path reaching the use (flow-sensitive, killed by
+    assignments in undecided branches and loops); IfExp / comprehension filters;
+    calls of pure integer functions on constant arguments (bisect_*, min, max,
+    len/sum of a literal list, int, abs); calls of project functions whose folded
+    body returns one constant for the given constant arguments (helper inlining,
+    depth-bounded)."""
+
     def __init__(self, is_subject: Callable[[ast.AST], bool] | None, v: int = 0,
-                 consts: dict[str, int] | None = None, valuation: Callable[[ast.AST], object] | None = None):
-        """Either (is_subject, v): every subject expression has value v; or
-        `valuation`: node -> int | bool | None for several independent subjects."""
+                 consts: dict[str, int] | None = None, valuation: Callable[[ast.AST], object] | None = None,
+                 prj: Project | None = None, fi: FuncInfo | None = None, depth: int = 0):
         self.valuation = valuation
         self.is_subject = is_subject if is_subject is not None else (lambda n: valuation(n) is not None)
         self.v = v
-        self.consts = consts or {}
+        self.consts = dict(consts or {})      # fixed (parameters bound by the caller)
+        self.env: dict[str, object] = {}      # flow-sensitive local constants
         self.decided = 0
+        self.prj, self.fi, self.depth = prj, fi, depth
 
-    # ---- integer value of an expression, if determined
-    def ival(self, n) -> Optional[int]:
+    # ---- value of an expression, if determined (int | bool | tuple of ints)
+    def cval(self, n):
         if self.valuation is not None:
             x = self.valuation(n)
-            if x is not None and not isinstance(x, bool):
+            if x is not None:
                 return x
         elif self.is_subject(n):
             return self.v
+        if isinstance(n, ast.Constant) and isinstance(n.value, (int, bool)) :
+            return n.value
         c = const_int(n)
         if c is not None:
             return c
-        if isinstance(n, ast.Name) and n.id in self.consts:
-            return self.consts[n.id]
+        if isinstance(n, ast.Name):
+            if n.id in self.env:
+                return self.env[n.id]
+            if n.id in self.consts:
+                return self.consts[n.id]
+            if self.fi is not None and n.id in self.fi.module.assigns and n.id not in self.fi.params():
+                return self.cval(self.fi.module.assigns[n.id]) if self.depth < 4 else None
+            return None
+        if isinstance(n, (ast.List, ast.Tuple)):
+            vals = [self.cval(e) for e in n.elts]
+            if all(isinstance(x, int) for x in vals):
+                return tuple(vals)
+            return None
         if isinstance(n, ast.BinOp) and isinstance(n.op, (ast.Add, ast.Sub)):
-            a, b = self.ival(n.left), self.ival(n.right)
-            if a is not None and b is not None:
+            a, b = self.cval(n.left), self.cval(n.right)
+            if isinstance(a, int) and isinstance(b, int):
                 return a + b if isinstance(n.op, ast.Add) else a - b
+            return None
+        if isinstance(n, ast.IfExp):
+            t = self.truth(n.test)
+            if t is not None:
+                return self.cval(n.body if t else n.orelse)
+            return None
+        if isinstance(n, ast.Compare) or isinstance(n, ast.BoolOp) or (isinstance(n, ast.UnaryOp) and isinstance(n.op, ast.Not)):
+            return self.truth(n)
+        if isinstance(n, ast.Call):
+            return self.call_value(n)
+        return None
+
+    def ival(self, n) -> Optional[int]:
+        x = self.cval(n)
+        if isinstance(x, bool):
+            return None
+        return x if isinstance(x, int) else None
+
+    def call_value(self, n: ast.Call):
+        name = attr_chain(n.func) or ""
+        base = name.split(".")[-1]
+        args = [self.cval(a) for a in n.args]
+        if n.keywords:
+            return None
+        if base in ("bisect_right", "bisect", "bisect_left") and len(args) == 2 and isinstance(args[0], tuple) and isinstance(args[1], int) \
+                and not isinstance(args[1], bool):
+            import bisect
+            return getattr(bisect, base)(list(args[0]), args[1])
+        if base in ("min", "max") and args and all(isinstance(a, int) and not isinstance(a, bool) for a in args):
+            return min(args) if base == "min" else max(args)
+        if base in ("len", "sum") and len(args) == 1 and isinstance(args[0], tuple):
+            return len(args[0]) if base == "len" else sum(args[0])
+        if base in ("int", "abs") and len(args) == 1 and isinstance(args[0], int):
+            return int(args[0]) if base == "int" else abs(args[0])
+        if base == "bool" and len(args) == 1 and isinstance(args[0], (int, bool)):
+            return bool(args[0])
+        # project helper: fold its body for these constant arguments
+        if self.prj is not None and self.fi is not None and self.depth < 3 and args and all(isinstance(a, (int, bool)) for a in args):
+            tg, kind = self.prj.resolve_call(self.fi, n)
+            if kind == "direct" and len(tg) == 1:
+                callee = tg[0]
+                params = callee.params()
+                if len(params) == len(args):
+                    bound = dict(zip(params, args))
+                    sub = Specializer(None, valuation=lambda x: bound.get(x.id) if isinstance(x, ast.Name) and isinstance(x.ctx, ast.Load) else None,
+                                      prj=self.prj, fi=callee, depth=self.depth + 1)
+                    tree = sub.visit(copy.deepcopy(callee.node))
+                    if tree.body and isinstance(tree.body[-1], ast.Return) and tree.body[-1].value is not None \
+                            and not any(isinstance(x, (ast.If, ast.For, ast.While, ast.Try)) for x in tree.body):
+                        return sub.cval(tree.body[-1].value)
         return None
 
     def mentions_subject(self, n) -> bool:
-        return any(self.is_subject(x) for x in ast.walk(n))
+        for x in ast.walk(n):
+            if self.is_subject(x):
+                return True
+            if isinstance(x, ast.Name) and x.id in self.env and isinstance(x.ctx, ast.Load):
+                return True
+        return False
 
     # ---- three-valued truth of a test
     def truth(self, t) -> Optional[bool]:
         if isinstance(t, ast.Compare):
-            vals = [self.ival(t.left)] + [self.ival(c) for c in t.comparators]
+            vals = [self.cval(t.left)] + [self.cval(c) for c in t.comparators]
             res: Optional[bool] = True
             for i, op in enumerate(t.ops):
                 a, b = vals[i], vals[i + 1]
-                if a is None or b is None:
+                if not isinstance(a, (int, bool)) or not isinstance(b, (int, bool)):
                     res = None if res is not False else False
                     continue
                 r = {ast.Lt: a < b, ast.LtE: a <= b, ast.Gt: a > b, ast.GtE: a >= b,
@@ -94,14 +182,11 @@ class Specializer(ast.NodeTransformer):
         if isinstance(t, ast.UnaryOp) and isinstance(t.op, ast.Not):
             x = self.truth(t.operand)
             return None if x is None else not x
-        if isinstance(t, ast.Constant) and isinstance(t.value, bool):
-            return t.value
-        if self.valuation is not None:
-            x = self.valuation(t)
-            if isinstance(x, bool):
-                return x
-            if isinstance(x, int):
-                return x != 0
+        x = self.cval(t) if not isinstance(t, (ast.Compare, ast.BoolOp)) else None
+        if isinstance(x, bool):
+            return x
+        if isinstance(x, int):
+            return x != 0
         return None
 
     # ---- statements
@@ -119,6 +204,26 @@ class Specializer(ast.NodeTransformer):
                 break
         return out
 
+    def visit_Assign(self, node):
+        node.value = self.visit(node.value)
+        for t in node.targets:
+            for nm in ast.walk(t):
+                if isinstance(nm, ast.Name):
+                    self.env.pop(nm.id, None)
+        if len(node.targets) == 1 and isinstance(node.targets[0], ast.Name):
+            v = self.cval(node.value)
+            if isinstance(v, (int, bool)):
+                self.env[node.targets[0].id] = v
+        return node
+
+    def visit_AugAssign(self, node):
+        node.value = self.visit(node.value)
+        if isinstance(node.target, ast.Name):
+            self.env.pop(node.target.id, None)
+        else:
+            node.target = self.visit(node.target)
+        return node
+
     def visit_If(self, node):
         t = self.truth(node.test)
         if t is True:
@@ -128,8 +233,13 @@ class Specializer(ast.NodeTransformer):
             self.decided += 1
             return self._block(node.orelse) or [ast.Pass()]
         node.test = self.visit(node.test)
+        before = dict(self.env)
         node.body = self._block(node.body) or [ast.Pass()]
+        after_body = self.env
+        self.env = dict(before)
         node.orelse = self._block(node.orelse)
+        after_else = self.env
+        self.env = {k: v for k, v in after_body.items() if k in after_else and after_else[k] == v}
         return node
 
     def _generic_blocks(self, node):
@@ -138,23 +248,45 @@ class Specializer(ast.NodeTransformer):
                 setattr(node, fld, self._block(getattr(node, fld)))
         return node
 
+    def _kill_loop(self, node):
+        for nm in _names_assigned(node.body + getattr(node, "orelse", [])):
+            self.env.pop(nm, None)
+
     def visit_For(self, node):
         node.iter = self.visit(node.iter)
-        return self._generic_blocks(node)
+        self._kill_loop(node)
+        for nm in ast.walk(node.target):
+            if isinstance(nm, ast.Name):
+                self.env.pop(nm.id, None)
+        r = self._generic_blocks(node)
+        self._kill_loop(node)
+        return r
 
     def visit_While(self, node):
+        self._kill_loop(node)
         node.test = self.visit(node.test)
-        return self._generic_blocks(node)
+        r = self._generic_blocks(node)
+        self._kill_loop(node)
+        return r
 
     def visit_With(self, node):
         return self._generic_blocks(node)
 
     def visit_Try(self, node):
+        before = dict(self.env)
+        for nm in _names_assigned(node.body):
+            before.pop(nm, None)
+        r = self._generic_blocks(node)
         for h in node.handlers:
+            self.env = dict(before)
             h.body = self._block(h.body)
-        return self._generic_blocks(node)
+        self.env = {k: v for k, v in before.items() if k not in _names_assigned(sum([h.body for h in node.handlers], []))}
+        return r
 
     def visit_FunctionDef(self, node):
+        if self.fi is not None and node is not getattr(self, "_root", None) and getattr(self, "_root", None) is not None:
+            return node     # nested definitions are left alone
+        self._root = node
         node.body = self._block(node.body) or [ast.Pass()]
         return node
 
@@ -190,30 +322,36 @@ class Specializer(ast.NodeTransformer):
     visit_SetComp = _comp
     visit_GeneratorExp = _comp
 
-    def visit_BoolOp(self, node):
-        t = self.truth(node)
-        if t is not None and self.mentions_subject(node):
-            self.decided += 1
-            return ast.Constant(value=t)
+    def _fold(self, node):
+        if self.mentions_subject(node):
+            x = self.cval(node)
+            if isinstance(x, (int, bool)):
+                self.decided += 1
+                return ast.Constant(value=x)
         return self.generic_visit(node)
 
-    def visit_Compare(self, node):
-        t = self.truth(node)
-        if t is not None and self.mentions_subject(node):
-            self.decided += 1
-            return ast.Constant(value=t)
-        return self.generic_visit(node)
+    visit_BoolOp = _fold
+    visit_Compare = _fold
+    visit_Call = _fold
+
+    def visit_Name(self, node):
+        if isinstance(node.ctx, ast.Load) and node.id in self.env:
+            return ast.Constant(value=self.env[node.id])
+        return node
 
 
-def residual_multi(fi: FuncInfo, valuation) -> ast.AST:
-    sp = Specializer(None, valuation=valuation)
+def residual_multi(fi: FuncInfo, valuation, prj=None) -> ast.AST:
+    sp = Specializer(None, valuation=valuation, prj=prj, fi=fi)
     tree = sp.visit(copy.deepcopy(fi.node))
     ast.fix_missing_locations(tree)
     return tree
 
 
+PRJ = None   # set by LengthFacts: lets the folder inline project helpers
+
+
 def residual(fi: FuncInfo, is_subject, v: int, consts=None) -> tuple[ast.AST, int]:
-    sp = Specializer(is_subject, v, consts)
+    sp = Specializer(is_subject, v, consts, prj=PRJ, fi=fi)
     tree = sp.visit(copy.deepcopy(fi.node))
     ast.fix_missing_locations(tree)
     return tree, sp.decided
@@ -235,6 +373,40 @@ def literals_compared(fi: FuncInfo, is_subject, consts=None) -> list[int]:
     return sorted(out)
 
 
+def reachable_int_literals(fi: FuncInfo, is_subject, depth: int = 2, _seen=None) -> set[int]:
+    """Integer literals that can act as cut points for the subject: literals in
+    fi itself that sit in comparisons or call arguments next to the subject, all
+    integer literals of module-level constant lists fi names, and (transitively,
+    bounded) every integer literal of project helpers that receive the subject."""
+    out = set()
+    _seen = _seen or set()
+    if fi.qual in _seen:
+        return out
+    _seen = _seen | {fi.qual}
+    for n in fi.walk():
+        if isinstance(n, ast.Name) and n.id in fi.module.assigns and n.id not in fi.params():
+            for c in ast.walk(fi.module.assigns[n.id]):
+                k = const_int(c)
+                if k is not None:
+                    out.add(k)
+        if isinstance(n, ast.Call) and PRJ is not None and depth > 0:
+            if any(is_subject(a) for a in n.args):
+                tg, kind = PRJ.resolve_call(fi, n)
+                if kind == "direct":
+                    for t in tg:
+                        for c in t.walk():
+                            k = const_int(c)
+                            if k is not None:
+                                out.add(k)
+                        out |= reachable_int_literals(t, lambda x: isinstance(x, ast.Name) and x.id in t.params(), depth - 1, _seen)
+                for a in n.args:
+                    for c in ast.walk(a):
+                        k = const_int(c)
+                        if k is not None:
+                            out.add(k)
+    return {k for k in out if -10 <= k <= 100000}
+
+
 def sample_points(lits: list[int]) -> list[int]:
     pts = set()
     base = sorted(set(lits) | set(SPEC_CUTS))
@@ -254,13 +426,13 @@ def sample_points(lits: list[int]) -> list[int]:
 def regions(fi: FuncInfo, is_subject, consts=None, label=None):
     """-> list of (lo, hi, label_or_residual_text, residual_tree) maximal runs of
     sample points with equal label (hi None = unbounded)."""
-    lits = literals_compared(fi, is_subject, consts)
+    lits = sorted(set(literals_compared(fi, is_subject, consts)) | reachable_int_literals(fi, is_subject))
     pts = sample_points(lits)
     out = []
     for v in pts:
         tree, _ = residual(fi, is_subject, v, consts)
         lab = label(tree, v) if label else unparse(tree)
-        if out and out[-1][2] == lab and (out[-1][1] == v - 1 or v == pts[-1]):
+        if out and out[-1][2] == lab:
             out[-1] = (out[-1][0], v, lab, out[-1][3])
         else:
             out.append((v, v, lab, tree))
@@ -291,6 +463,8 @@ class LengthFacts:
     """
 
     def __init__(self, prj: Project, seed_functions: tuple[str, ...] = ()):
+        global PRJ
+        PRJ = prj
         self.prj = prj
         self.length_params: dict[str, set[str]] = {}
         self.cut_params: dict[str, set[str]] = {}
@@ -317,7 +491,7 @@ class LengthFacts:
                 and not (isinstance(n.value, ast.Name) and n.value.id in ("self", "cls")))
 
     def is_length_expr(self, fi: FuncInfo, n) -> bool:
-        if self.is_value_attr(n) and self._value_attr_is_int(fi, n):
+        if self.is_value_attr(n) and (self._value_attr_is_int(fi, n) or self._arg_is_length(fi, n)):
             return True
         if isinstance(n, ast.Name) and n.id in self.length_params.get(fi.qual, ()):
             return True
